@@ -516,7 +516,7 @@ pub fn minimise_tape(
     let mut best_v: Option<Violation> = None;
     let mut best_digest = 0u64;
     let mut tries = 0u64;
-    let mut test = |cand: &Tape, best_v: &mut Option<Violation>, best_digest: &mut u64| -> Option<Tape> {
+    let test = |cand: &Tape, best_v: &mut Option<Violation>, best_digest: &mut u64| -> Option<Tape> {
         let mut ch = Chooser::replay(seed, cand.clone());
         let out = run_once(fam, &mut ch, tier).ok()?;
         let v = same_violation(&out, oracle, known)?;
@@ -620,6 +620,9 @@ pub fn replay_file(path: &str, families: &[&dyn Check], quiet: bool) -> i32 {
                     v.oracle, same_digest, v.key
                 );
                 if !quiet {
+                    if let Some(sm) = &o.sample {
+                        println!("case: {}", serde_json::to_string_pretty(sm).unwrap_or_default());
+                    }
                     println!("  {}", v.message);
                     println!("VIOLATION property={} replay={}", rf.property, path);
                 }
